@@ -245,7 +245,16 @@ def judge_sheet(sh, al, rules, res, text, nodes, reversed_res=None):
                 bad = got & ~want if judge_sound else 0
                 if bad:
                     culprits = [sel.complex_text(cx) for cx in new if u.match_all([cx])[e] & bad]
-                    facts = dict(facts, unsound_members=culprits,
+                    # under :not(), incompleteness turns into unsoundness: would the original match this element if only
+                    # one target at a time were credited? (then the excess exists only because two targets of one
+                    # compound inside :not() are never replaced together)
+                    single_all = u.ALL
+                    for t in sorted({t for rr in rules for t, _ in rr["extends"]}):
+                        cr_t = {k: v for k, v in cr.items() if k != "__frozen__" and k[0] == t}
+                        single_all &= u.match_all(orig, cr_t)[e]
+                    facts = dict(facts, unsound_members=culprits, rule_has_negation=":not(" in r["sel"],
+                                 excess_only_where_two_targets_are_credited_at_once=(bad & ~single_all) == 0, **shape_facts(rules, parsed))
+                    facts = dict(facts,
                                  every_unsound_member_mixes_next_and_following_sibling=bool(culprits) and all(" + " in c and " ~ " in c for c in culprits))
                     sh.violation("unsound:" + h, "rule %d `%s` was rewritten to `%s`, which matches element #%d of %s although the original does not even when extenders are credited with their targets\n%s" % (
                         i, r["sel"], sel.to_text(new), e, u.witness(bad), text), rp, dict(facts, rule=i, rewritten=sel.to_text(new), dom=u.witness(bad)))
